@@ -225,7 +225,7 @@ func (r *Report) Finish(opts *Options, start time.Time, extra map[string]any) in
 	}
 	distinct := len(byKey)
 	cov := map[string]any{
-		"explanation": fmt.Sprintf("static analysis (go/types + go/ssa over the current working tree of %s): %d rule(s) enumerated %d obligation(s) keyed rule|construct; each is decided on the CFG/SSA/type information, no code is executed. Level 'other': the rules are structural necessary conditions of the property (see DESIGN.md section for %s); they do not decide the behavioural clauses listed as 'not decided' there.", opts.Repo, len(rs), tot, r.Prop),
+		"explanation":         fmt.Sprintf("static analysis (go/types + go/ssa over the current working tree of %s): %d rule(s) enumerated %d obligation(s) keyed rule|construct; each is decided on the CFG/SSA/type information, no code is executed. Level 'other': the rules are structural necessary conditions of the property (see DESIGN.md section for %s); they do not decide the behavioural clauses listed as 'not decided' there.", opts.Repo, len(rs), tot, r.Prop),
 		"obligations":         tot,
 		"discharged":          dis,
 		"known_findings":      kn,
